@@ -1676,10 +1676,14 @@ def inline_package(trees: Dict[str, Tuple[ast.Module, bool]], known: Optional[Se
                 m.new = [d for d in m.defs if d.qual not in m.known]
             if sum(len(m.log) for m in pkg.values()) == n_before:
                 break
+        from . import restore
+        sources = restore.load_sources()
+        restore.restore_functions(pkg, sources)
         for m in pkg.values():
             m._inline_new_constants()
         for m in pkg.values():
             m._outline_vanished(templates)
+        restore.restore_inlined(pkg, sources)
         for m in pkg.values():
             # trees may have been rewritten by another module's outlining: refresh
             m.defs = enumerate_defs(m.modname, m.tree)
